@@ -2,7 +2,7 @@
    Main results: [pack_bits] (the packed bytes read as a bit string are the concatenated
    k-bit fields) and [get_pack] (getPackedValue at field i of a packed run returns field i),
    for every width 1..9 and any number of fields filling whole bytes. *)
-From DV Require Import Base.Prelude Base.BitPack Gen.Consts.
+From DV Require Import Base.Prelude Base.BitPack Proofs.BitPackSweep Gen.Consts.
 From Coq Require Import ZifyN ZifyNat ZifyBool.
 Ltac Zify.zify_post_hook ::= Z.div_mod_to_equations.
 Local Open Scope N_scope.
